@@ -71,7 +71,22 @@ Theorem C14_text_lines : forall ls, forallb (fun l => negb (ListingText.has_nl l
   ListingText.lines_of (ListingText.unlines ls) String.EmptyString = ls.
 Proof. exact ListingText.lines_of_unlines. Qed.
 
-Check C14_text. Check C14_text_lines.
+(* ... so for an accepted document whose names, hidden names and room strings contain no line feed, the lines of the printed text ARE the
+   title followed by the rendering of the structural listing: what C14_partition / _flags / _count state can be read off stdout *)
+Theorem C14_text_recover : forall data ps cs rooms a, SimpleRead.simple_read data = Json.ROk (ps, cs) -> SimpleRead.consistentb ps cs = true ->
+  (forall p, In p ps -> ListingText.has_nl (SimpleRead.sp_name p) = false) ->
+  (forall c, In c cs -> ListingText.has_nl (SimpleRead.so_name c) = false /\
+                        forallb (fun h => negb (ListingText.has_nl h)) (SimpleRead.so_hidden c) = true) ->
+  match rooms with Some rs => forallb (fun s => negb (ListingText.has_nl s)) rs = true | None => True end ->
+  ListingText.lines_of (ListingText.print_stage cs ps rooms a) String.EmptyString =
+  ListingText.title :: ListingText.render cs ps rooms (listing (map SimpleValid.to_course cs) (ListingText.hidden cs) a).
+Proof.
+  intros data ps cs rooms a Hr Hc Hp Hcs Hro. rewrite (ListingText.print_stage_lines cs ps rooms Hp Hcs Hro a). f_equal.
+  apply ListingText.lines_render. destruct (SimpleRead.accepted_is_consistent data ps cs Hr Hc) as (_ & Hin & _ & _).
+  intros c i Hcin Hi. destruct (Hin c i Hcin Hi) as [H _]. exact H.
+Qed.
+
+Check C14_text. Check C14_text_lines. Check C14_text_recover.
 Check C14_input_round_trip. Check C14_courses. Check C14_partition. Check C14_once. Check C14_flags. Check C14_count. Check C14_array.
 Print Assumptions C14_partition.
 Print Assumptions C14_once.
@@ -81,3 +96,4 @@ Print Assumptions C14_array.
 Print Assumptions C14_input_round_trip.
 Print Assumptions C14_text.
 Print Assumptions C14_text_lines.
+Print Assumptions C14_text_recover.
